@@ -52,7 +52,7 @@ CLASSES.update({
     '_state': 'int', '_open_result': 'AsyncResult?', '_send_queue': 'Queue', '_socket': 'MuxSocket',
     '_greenlets': 'list[Greenlet]', '_service': 'any', '_socket_source': 'any'}),
   'Queue': dict(extern=True, path=None, bases=[], fields={}),
-  'Socket': dict(extern=True, path=None, bases=[], fields={'connected': 'bool', 'host': 'any', 'port': 'int', 'g_epoch': 'int', 'g_written': 'int'}, ghost=['g_epoch', 'g_written']),
+  'Socket': dict(extern=True, path=None, bases=[], fields={'connected': 'bool', 'host': 'any', 'port': 'int', 'g_epoch': 'int', 'g_written': 'int', 'g_ioerr': 'bool'}, ghost=['g_epoch', 'g_written', 'g_ioerr']),
   'Stream': dict(extern=True, path=None, bases=[], fields={}),
   # the mux transport's socket: reads and writes block (other greenlets run meanwhile)
   'MuxSocket': dict(extern=True, path=None, bases=['Socket'], fields={}),
